@@ -467,6 +467,10 @@ func (c *AbstractVariantOperations) Lsh(
 	}
 
 	// Performs operation.
+	if value2.AsInteger() < 0 {
+		return nil, errors.NewBadRequestError("", "NEGATIVE_SHIFT", "Negative shift count")
+	}
+
 	switch value1.Type() {
 	case Integer:
 		result.SetAsInteger(value1.AsInteger() << value2.AsInteger())
@@ -504,6 +508,10 @@ func (c *AbstractVariantOperations) Rsh(
 	}
 
 	// Performs operation.
+	if value2.AsInteger() < 0 {
+		return nil, errors.NewBadRequestError("", "NEGATIVE_SHIFT", "Negative shift count")
+	}
+
 	switch value1.Type() {
 	case Integer:
 		result.SetAsInteger(value1.AsInteger() >> value2.AsInteger())
